@@ -603,7 +603,7 @@ void unlink_string_svalue (svalue_t * s) {
         break;
       }
     case STRING_CONSTANT:
-      s->u.string = string_copy (sp->u.string, "unlink_string_svalue");
+      s->u.string = string_copy (s->u.string, "unlink_string_svalue");	/* s, which need not be the top of the stack */
       s->subtype = STRING_MALLOC;
       break;
     }
